@@ -46,6 +46,8 @@ class Gen:
         self.counter = 0
         self.dead = []              # names whose block has ended
         self.has_probe = False
+        self.ret_type = None        # "num" while generating the body of a number-valued method
+        self.fret = {}              # method name -> "num" | None
 
     # ------------------------------------------------------------ helpers
     def fresh(self, pool=VAR_NAMES):
@@ -111,11 +113,14 @@ class Gen:
                 k = rng.random()
                 if k < 0.75:
                     op = rng.choice(["+", "-", "*", "/", "|", "%", "+", "-", "*"])
+                    if op in "/|%" and rng.random() < 0.75:
+                        # mostly non-zero literal divisors: division by zero stays covered without ending every other program
+                        return Arith(op, self.expr("num", d + 1), Num(rng.choice([1, 2, 3, 4, 7, 0.5, 2.5, -2, -3])))
                     return Arith(op, self.expr("num", d + 1), self.expr("num", d + 1))
                 if k < 0.85 and self.vars_of("list"):
                     return Member(Var(rng.choice(self.vars_of("list"))), rng.choice(["长度", "数目"]))
-                if k < 0.95 and self.funcs and self.p.funcs:
-                    return self.call_expr(d)
+                if k < 0.95 and self.p.funcs and [f for f in self.funcs if self.fret.get(f) == "num"]:
+                    return self.call_expr(d, numeric=True)
             return self.num_lit()
         if t == "bool":
             if vs and rng.random() < 0.3:
@@ -155,8 +160,8 @@ class Gen:
             return Var("空")
         return self.num_lit()
 
-    def call_expr(self, d):
-        f = self.rng.choice(sorted(self.funcs))
+    def call_expr(self, d, numeric=False):
+        f = self.rng.choice(sorted(f for f in self.funcs if not numeric or self.fret.get(f) == "num"))
         n = self.funcs[f]
         if self.rng.random() < 0.05:
             n = max(0, n + self.rng.choice([-1, 1]))
@@ -388,6 +393,8 @@ class Gen:
         return [Continue()]
 
     def s_return(self, d):
+        if self.ret_type == "num":
+            return [Return(self.expr("num", d))]
         return [Return(self.expr(self.rng.choice(["num", "num", "str", "list", "bool"]), d))]
 
     def s_coll(self, d):
@@ -497,9 +504,20 @@ class Gen:
         return [ExprS(Index(Arr([Num(1)]), Num(5)))]
 
     # ------------------------------------------------------------ definitions
-    def catches(self, d):
+    def catches(self, d, visible=None):
+        """handlers; [visible] = the names that certainly exist whenever the handler runs (an exception may arrive before
+        any later declaration of the body has been executed)"""
         if self.rng.random() > 0.5 * self.p.exceptions:
             return []
+        saved_scopes = self.scopes
+        if visible is not None:
+            self.scopes = [dict(visible)]
+        try:
+            return self._catches(d)
+        finally:
+            self.scopes = saved_scopes
+
+    def _catches(self, d):
         out = []
         names = ["异常"] + self.exc_classes
         self.rng.shuffle(names)
@@ -527,8 +545,12 @@ class Gen:
         # parameters are constants; give bodies plain views of them
         for pn in params:
             self.scopes[-1][pn] = "const:num"
+        certain = dict(self.scopes[-1])
         self.in_func += 1
         loop_save, self.in_loop = self.in_loop, 0
+        # most methods are number-valued on every path, so that calls can stand in arithmetic
+        rt_save = self.ret_type
+        self.ret_type = "num" if (method_of is None and self.rng.random() < 0.7) else None
         body = []
         for pn in params:
             if self.rng.random() < 0.5:
@@ -549,7 +571,9 @@ class Gen:
                     body.append(Decl([(False, [v], ThisProp(pn))]))
                     self.declare(v, "num")
         body += self.block(1)
-        if self.rng.random() < 0.7:
+        if self.ret_type == "num":
+            body.append(Return(self.expr("num", 1)))
+        elif self.rng.random() < 0.7:
             body.append(Return(self.expr(self.rng.choice(["num", "num", "str", "list"]), 1)))
         # local definitions: a method defined inside the body (hoisted in the body's scope, gone when it ends);
         # now and then the body consists of such a definition only (its value is 空)
@@ -557,15 +581,18 @@ class Gen:
         if x < 0.12:
             inner = "Fi" + self.rng.choice("xyz")
             idef = Func(inner, [], [Return(Num(self.rng.randrange(300, 400)))], [])
-            if x < 0.05:
+            if x < 0.05 and self.ret_type is None:
                 body = [idef]
             elif x < 0.09:
                 body = [idef, Return(Call(inner, []))]
             else:
                 body.insert(self.rng.randrange(0, len(body) + 1), idef)
-        cs = self.catches(1)
+        cs = self.catches(1, visible=certain)
         if not body:
             body.append(ExprS(Var("空")))
+        if method_of is None:
+            self.fret[f] = self.ret_type
+        self.ret_type = rt_save
         self.in_loop = loop_save
         self.in_func -= 1
         self.scopes = saved
@@ -620,7 +647,7 @@ class Gen:
                     if params and pt == "num" and rng.random() < 0.7:
                         body.append(ExprS(AssignThis(pn, Var(rng.choice(params)))))
                 body += self.block(1, n=rng.choice([0, 1, 2]))
-                cs = self.catches(1) if rng.random() < 0.3 else []
+                cs = self.catches(1, visible={pn: "const:num" for pn in params}) if rng.random() < 0.3 else []
                 if not body:
                     body.append(ExprS(Var("空")))
                 self.in_func -= 1
@@ -656,7 +683,7 @@ class Gen:
                 body.insert(rng.randrange(0, len(body) + 1), dfn)
         # keep source order of definitions stable w.r.t. dependencies: classes before their constructors
         body = self.order_defs(body, defs)
-        cs = self.catches(0)
+        cs = self.catches(0, visible={})
         return (inputs, body, cs)
 
     def order_defs(self, body, defs):
